@@ -206,6 +206,17 @@ class Flow:
         names = g.params()
         if bound and names:
             names = names[1:]
+        # f(*xs): the items of xs fill the remaining positional parameters
+        stars = [i for i, a in enumerate(args) if isinstance(a, RF) and a.single_atom() is not None and
+                 t.atoms[a.single_atom()].head == 'star']
+        if len(stars) == 1 and not kw:
+            i = stars[0]
+            xs = t.atoms[args[i].single_atom()].args[0]
+            m = len(names) - (len(args) - 1)
+            if m >= 0:
+                args = list(args[:i]) + [t.atom('idx', (xs, t.const(j))) for j in range(m)] + list(args[i + 1:])
+        elif stars:
+            return None
         if len(args) > len(names):
             return None
         env = {}
